@@ -134,5 +134,15 @@ Lemma dispatch_total_refuted :
   exists k c, allowed k = false /\ lookup k c table = Some Ignored.
 Proof. exists K_del_stmt, MainLoop. split; vm_compute; reflexivity. Qed.
 
-Lemma known_gaps_nonempty : (length known_gaps = 135)%nat.
+(* `continue` (repaired): in a for/while loop it is translated in every context; directly in the body
+   of the main loop it is translated (it ends the pass); outside any loop it is rejected *)
+Lemma continue_accounted : forall c,
+  lookup K_continue_in_while c table = Some Translated /\
+  lookup K_continue_in_for c table = Some Translated /\
+  lookup K_continue_outside_loop c table = Some (match c with MainLoop => Translated | _ => Rejected end) /\
+  known_gap K_continue_in_while c = false /\ known_gap K_continue_in_for c = false /\
+  known_gap K_continue_outside_loop c = false.
+Proof. intros []; vm_compute; repeat split; reflexivity. Qed.
+
+Lemma known_gaps_nonempty : (length known_gaps = 123)%nat.
 Proof. vm_compute. reflexivity. Qed.
